@@ -185,6 +185,11 @@ class AirTouchSocket(Generic[comms.Hdr]):
                 self._connect_task is not asyncio.current_task()
             ):
                 self._connect_task.cancel()
+                # A cancelled attempt only finishes on a later turn of the event
+                # loop. Forget it now, otherwise an open_socket() that follows
+                # close() without yielding would take it for an attempt in flight
+                # and never connect.
+                self._connect_task = None
             await self._disconnect()
 
     async def send(self, message: comms.Message, retry_policy: RetryPolicy) -> None:
